@@ -71,6 +71,30 @@ func (l *Lab) Step(snap world.Snapshot, m storage.Message) (err error, after wor
 	return err, l.Node.Mem.Snapshot(), l.Board.Log()
 }
 
+// StepL is Step that also returns the node's log lines of this step.
+func (l *Lab) StepL(snap world.Snapshot, m storage.Message) (err error, after world.Snapshot, appended []storage.Message, logs []string) {
+	l.Node.Log.Keep = true
+	l.Node.Log.Take()
+	err, after, appended = l.Step(snap, m)
+	return err, after, appended, l.Node.Log.Take()
+}
+
+// NewLabFor builds a lab around a fresh node with the identity of participant `view` of an
+// existing world (same communication key), on its own board.
+func NewLabFor(w *world.World, view int) (*Lab, error) {
+	l := &Lab{N: w.N, T: w.T, Board: world.NewBoard(), Round: w.Round}
+	for _, n := range w.Nodes {
+		l.Keys = append(l.Keys, n.KeyPair)
+		l.Names = append(l.Names, n.Name)
+	}
+	nd, err := world.NewNodeOver(l.Names[view], l.Keys[view], world.NewMemState(world.Topic), l.Board.NewHandle())
+	if err != nil {
+		return nil, err
+	}
+	l.Node = nd
+	return l, nil
+}
+
 // Input is one element of an exploration alphabet.
 type Input struct {
 	Label   string
